@@ -20,9 +20,61 @@ BIN_ALT = {ast.Add: [ast.Sub], ast.Sub: [ast.Add], ast.Mult: [ast.Div, ast.Floor
            ast.FloorDiv: [ast.Div], ast.Pow: [ast.Mult], ast.Mod: [ast.FloorDiv]}
 
 
-def variants(tree):
+def _scopes(tree):
+    """node id -> sorted local names (params + assigned) of the innermost enclosing function."""
+    out = {}
+
+    def visit(fn):
+        names = set()
+        a = fn.args
+        for p in a.posonlyargs + a.args + a.kwonlyargs:
+            names.add(p.arg)
+        for sub in ast.walk(fn):
+            if isinstance(sub, ast.Name) and isinstance(sub.ctx, ast.Store):
+                names.add(sub.id)
+        names -= {"self", "cls", "_"}
+        for sub in ast.walk(fn):
+            if isinstance(sub, ast.Name) and isinstance(sub.ctx, ast.Load):
+                out[id(sub)] = sorted(names)
+    for fn in ast.walk(tree):
+        if isinstance(fn, ast.FunctionDef):
+            visit(fn)
+    return out
+
+
+def variants(tree, ops="classic"):
     """Yield (description, mutated tree) for every first-order mutant."""
     nodes = list(ast.walk(tree))
+    if ops == "dataflow":
+        scopes = _scopes(tree)
+        for idx, n in enumerate(nodes):
+            def mk(fn, desc):
+                t2 = copy.deepcopy(tree)
+                n2 = list(ast.walk(t2))[idx]
+                if fn(n2) is False:
+                    return None
+                return (f"{desc} @{getattr(n, 'lineno', 0)}", t2)
+            if isinstance(n, ast.Name) and isinstance(n.ctx, ast.Load) and id(n) in scopes and n.id in scopes[id(n)]:
+                alts = [x for x in scopes[id(n)] if x != n.id]
+                # at most three alternatives, rotated by position so that different sites try different names
+                k0 = (getattr(n, "lineno", 0) + getattr(n, "col_offset", 0)) % max(1, len(alts))
+                for alt in (alts[k0:] + alts[:k0])[:3]:
+                    yield mk(lambda m, alt=alt: setattr(m, "id", alt), f"name {n.id}->{alt}")
+            elif isinstance(n, ast.Call):
+                for k, a in enumerate(n.args):
+                    if isinstance(a, (ast.Name, ast.Attribute)):
+                        yield mk(lambda m, k=k: m.args.__setitem__(k, ast.Constant(value=None)), f"arg{k}->None")
+                for k, kw in enumerate(n.keywords):
+                    if kw.arg and isinstance(kw.value, (ast.Name, ast.Attribute)):
+                        yield mk(lambda m, k=k: setattr(m.keywords[k], "value", ast.Constant(value=None)), f"kw {kw.arg}->None")
+                if len(n.keywords) >= 2:
+                    for k in range(len(n.keywords) - 1):
+                        if n.keywords[k].arg and n.keywords[k + 1].arg:
+                            yield mk(lambda m, k=k: (lambda a, b: (setattr(m.keywords[k], "value", b), setattr(m.keywords[k + 1], "value", a)))(
+                                m.keywords[k].value, m.keywords[k + 1].value), f"swap-kw {n.keywords[k].arg}<->{n.keywords[k + 1].arg}")
+            elif isinstance(n, ast.Return) and n.value is not None and isinstance(n.value, ast.Tuple) and len(n.value.elts) == 2:
+                yield mk(lambda m: m.value.elts.reverse(), "swap-return-pair")
+        return
     for idx, n in enumerate(nodes):
         def mk(fn, desc):
             t2 = copy.deepcopy(tree)
@@ -146,6 +198,7 @@ def main():
     ap.add_argument("--limit", type=int, default=0)
     ap.add_argument("--skip-tests", action="store_true")
     ap.add_argument("--out", default="/tmp/fuzz_survivors.json")
+    ap.add_argument("--ops", default="classic", choices=["classic", "dataflow"])
     a = ap.parse_args()
     files = [x for x in a.files.split(",") if x] or sorted(f for f in os.listdir(SRC) if f.endswith(".py") and f not in SKIP_FILES)
     jobs = []
@@ -153,7 +206,7 @@ def main():
         src = open(os.path.join(SRC, f)).read()
         tree = ast.parse(src)
         orig = ast.unparse(tree)
-        for v in variants(tree):
+        for v in variants(tree, a.ops):
             if v is None:
                 continue
             desc, t2 = v
